@@ -4,6 +4,7 @@ import (
 	"fmt"
 	"math"
 	"math/big"
+	"strings"
 	"testing"
 
 	"github.com/bytom/bytom/math/checked"
@@ -170,6 +171,15 @@ func c31GenOperand(t *rapid.T, ty c31Type, label string) *big.Int {
 		if rapid.Bool().Draw(t, label+"neg") {
 			v.Neg(v)
 		}
+	case 6: // the upper half of the half-width numbers (their squares straddle the signed and unsigned limits)
+		half := uint(ty.bits / 2)
+		lo := new(big.Int).Lsh(big.NewInt(1), half-1)
+		off := new(big.Int).SetUint64(rapid.Uint64().Draw(t, label+"hw"))
+		off.Mod(off, lo)
+		v = new(big.Int).Add(lo, off)
+		if rapid.IntRange(0, 3).Draw(t, label+"hwneg") == 0 {
+			v.Neg(v)
+		}
 	case 5: // small shift counts / small numbers
 		v = big.NewInt(int64(rapid.IntRange(-2, 70).Draw(t, label+"s")))
 	default:
@@ -193,6 +203,30 @@ func c31Gen(t *rapid.T) c31Case {
 	ty, _ := c31TypeOf(op)
 	a := c31GenOperand(t, ty, "a")
 	b := c31GenOperand(t, ty, "b")
+	// in a third of the cases the second operand is derived from the first so that the exact result
+	// lands within a few units of a limit of the type (either side of it)
+	if rapid.IntRange(0, 2).Draw(t, "complement") == 0 {
+		bound := ty.max
+		if rapid.Bool().Draw(t, "tomin") {
+			bound = ty.min
+		}
+		d := big.NewInt(int64(rapid.IntRange(-2, 2).Draw(t, "cd")))
+		var nb *big.Int
+		switch {
+		case strings.HasPrefix(op, "Add"):
+			nb = new(big.Int).Sub(bound, a)
+		case strings.HasPrefix(op, "Sub"):
+			nb = new(big.Int).Sub(a, bound)
+		case strings.HasPrefix(op, "Mul") && a.Sign() != 0:
+			nb = new(big.Int).Quo(bound, a)
+		}
+		if nb != nil {
+			nb.Add(nb, d)
+			if nb.Cmp(ty.min) >= 0 && nb.Cmp(ty.max) <= 0 {
+				b = nb
+			}
+		}
+	}
 	return c31Case{Op: op, A: a.String(), B: b.String()}
 }
 
